@@ -638,3 +638,89 @@ V("C15", "bridge-test-loses-chain-check", DCP, "    if (a >= 0 && c < n_residues
   "    if (a >= 0 && c < n_residues && chain_ids[a] == chain_ids[c] &&\n        d >= 0 && f < n_residues) {", "C15-R3")
 V("C15", "helix-test-loses-chain-check", DCP, "_test_bond(i+stride, i, hbonds) && (chain_ids[i] == chain_ids[i+stride])) {", "_test_bond(i+stride, i, hbonds)) {", "C15-R3")
 V("C15", "twin-case-order", DCP, "                case SS_ALPHAHELIX:  ss='H'; break;\n                case SS_BETABRIDGE:  ss='B'; break;", "                case SS_BETABRIDGE:  ss='B'; break;\n                case SS_ALPHAHELIX:  ss='H'; break;", None)
+
+# ---------------------------------------------------------------- C05
+GEOC = "mdtraj/geometry/src/geometry.cpp"
+DKH = "mdtraj/geometry/src/kernels/distancekernels.h"
+DPY = "mdtraj/geometry/distance.py"
+GPYX = "mdtraj/geometry/src/_geometry.pyx"
+V("C05", "reference-box-not-transposed", DPY, "            return _distance_mic(xyz, pairs, box.transpose(0, 2, 1), orthogonal)", "            return _distance_mic(xyz, pairs, box, orthogonal)", "C05-R1", "compute_distances_core")
+V("C05", "periodic-is-True", DPY, "    if periodic and traj._have_unitcell:\n        box = ensure_type(\n            traj.unitcell_vectors,\n            dtype=np.float32,\n            ndim=3,\n            name=\"unitcell_vectors\",\n            shape=(len(xyz), 3, 3),\n            warn_on_cast=False,\n        )\n        orthogonal = np.allclose(traj.unitcell_angles, 90)\n        if opt:\n            out = np.empty((xyz.shape[0], pairs.shape[0], 3), dtype=np.float32)",
+  "    if periodic is True and traj._have_unitcell:\n        box = ensure_type(\n            traj.unitcell_vectors,\n            dtype=np.float32,\n            ndim=3,\n            name=\"unitcell_vectors\",\n            shape=(len(xyz), 3, 3),\n            warn_on_cast=False,\n        )\n        orthogonal = np.allclose(traj.unitcell_angles, 90)\n        if opt:\n            out = np.empty((xyz.shape[0], pairs.shape[0], 3), dtype=np.float32)", "C05-R1", "compute_displacements")
+V("C05", "orthogonal-from-lengths", DPY, "        orthogonal = np.allclose(np.array(unitcell_angles), 90)", "        orthogonal = np.allclose(np.array(unitcell_angles), 90, atol=30)", "C05-R1")
+V("C05", "wrapper-branches-swapped", GPYX, "    if orthogonal:\n        dist_mic(&xyz[0,0,0], &pairs[0,0], &box_matrix[0,0,0], &out[0,0], NULL, n_frames, n_atoms, n_pairs)\n    else:\n        dist_mic_triclinic(&xyz[0,0,0], &pairs[0,0], &box_matrix[0,0,0], &out[0,0], NULL, n_frames, n_atoms, n_pairs)",
+  "    if not orthogonal:\n        dist_mic(&xyz[0,0,0], &pairs[0,0], &box_matrix[0,0,0], &out[0,0], NULL, n_frames, n_atoms, n_pairs)\n    else:\n        dist_mic_triclinic(&xyz[0,0,0], &pairs[0,0], &box_matrix[0,0,0], &out[0,0], NULL, n_frames, n_atoms, n_pairs)", "C05-R1", "_dist_mic")
+V("C05", "wrapper-n_atoms-n_pairs-swapped", GPYX, "        dist_mic_triclinic(&xyz[0,0,0], &pairs[0,0], &box_matrix[0,0,0], &out[0,0], NULL, n_frames, n_atoms, n_pairs)", "        dist_mic_triclinic(&xyz[0,0,0], &pairs[0,0], &box_matrix[0,0,0], &out[0,0], NULL, n_frames, n_pairs, n_atoms)", "C05-R5", "_dist_mic")
+V("C05", "kernel-sign-flipped", DKH, "            fvec4 r12 = pos2-pos1;\n#ifdef COMPILE_WITH_PERIODIC_BOUNDARY_CONDITIONS\n            r12 -= round(r12*inv_box_size)*box_size;", "            fvec4 r12 = pos1-pos2;\n#ifdef COMPILE_WITH_PERIODIC_BOUNDARY_CONDITIONS\n            r12 -= round(r12*inv_box_size)*box_size;", "C05-R2", count=2)
+V("C05", "triclinic_t-z-loop-short", GEOC, """            int offset2 = time_offset2 + pair_offset2;
+            fvec4 pos1(xyz[offset1], xyz[offset1+1], xyz[offset1+2], 0);
+            fvec4 pos2(xyz[offset2], xyz[offset2+1], xyz[offset2+2], 0);
+            fvec4 r12 = pos2-pos1;
+            r12 -= box_vec3*round(r12[2]*recip_box_size[2]);
+            r12 -= box_vec2*round(r12[1]*recip_box_size[1]);
+            r12 -= box_vec1*round(r12[0]*recip_box_size[0]);
+
+            // We need to consider 27 possible periodic copies.
+
+            float min_dist2 = FLT_MAX;
+            fvec4 min_r = r12;
+            for (int x = -1; x < 2; x++) {
+                fvec4 ra = r12 + box_vec1*x;
+                for (int y = -1; y < 2; y++) {
+                    fvec4 rb = ra + box_vec2*y;
+                    for (int z = -1; z < 2; z++) {""", """            int offset2 = time_offset2 + pair_offset2;
+            fvec4 pos1(xyz[offset1], xyz[offset1+1], xyz[offset1+2], 0);
+            fvec4 pos2(xyz[offset2], xyz[offset2+1], xyz[offset2+2], 0);
+            fvec4 r12 = pos2-pos1;
+            r12 -= box_vec3*round(r12[2]*recip_box_size[2]);
+            r12 -= box_vec2*round(r12[1]*recip_box_size[1]);
+            r12 -= box_vec1*round(r12[0]*recip_box_size[0]);
+
+            // We need to consider 27 possible periodic copies.
+
+            float min_dist2 = FLT_MAX;
+            fvec4 min_r = r12;
+            for (int x = -1; x < 2; x++) {
+                fvec4 ra = r12 + box_vec1*x;
+                for (int y = -1; y < 2; y++) {
+                    fvec4 rb = ra + box_vec2*y;
+                    for (int z = -1; z < 1; z++) {""", "C05-R4", "dist_mic_triclinic_t")
+V("C05", "triclinic-reduction-dropped", GEOC, "        box_vec3 -= box_vec2*roundf(box_vec3[1]/box_vec2[1]);\n        box_vec3 -= box_vec1*roundf(box_vec3[0]/box_vec1[0]);\n        box_vec2 -= box_vec1*roundf(box_vec2[0]/box_vec1[0]);\n        float recip_box_size[3] = {1.0f/box_vec1[0], 1.0f/box_vec2[1], 1.0f/box_vec3[2]};\n        for (int j = 0; j < n_pairs; j++) {\n            // Compute the displacement.\n\n            int time_offset1",
+  "        box_vec3 -= box_vec1*roundf(box_vec3[0]/box_vec1[0]);\n        box_vec2 -= box_vec1*roundf(box_vec2[0]/box_vec1[0]);\n        float recip_box_size[3] = {1.0f/box_vec1[0], 1.0f/box_vec2[1], 1.0f/box_vec3[2]};\n        for (int j = 0; j < n_pairs; j++) {\n            // Compute the displacement.\n\n            int time_offset1", "C05-R4", "dist_mic_triclinic_t")
+V("C05", "triclinic-stores-unsearched-displacement", GEOC, "                min_r.store(temp);", "                r12.store(temp);", "C05-R4", count=2)
+V("C05", "reference-wrap-order", DPY, "            r12 = xyz[i, b, :] - xyz[i, a, :]\n            r12 -= bv3 * round(r12[2] / bv3[2])\n            r12 -= bv2 * round(r12[1] / bv2[1])\n            r12 -= bv1 * round(r12[0] / bv1[0])\n            dist = np.linalg.norm(r12)",
+  "            r12 = xyz[i, b, :] - xyz[i, a, :]\n            r12 -= bv1 * round(r12[0] / bv1[0])\n            r12 -= bv2 * round(r12[1] / bv2[1])\n            r12 -= bv3 * round(r12[2] / bv3[2])\n            dist = np.linalg.norm(r12)", "C05-R4", "_distance_mic")
+V("C05", "reference-loop-0-2", DPY, "                for ii in range(-1, 2):\n                    v1 = bv1 * ii\n                    for jj in range(-1, 2):\n                        v12 = bv2 * jj + v1\n                        for kk in range(-1, 2):\n                            new_r12 = r12 + v12 + bv3 * kk\n                            dist = min(dist, np.linalg.norm(new_r12))\n            out[i, j] = dist\n    return out\n\n\ndef _distance_mic_t(",
+  "                for ii in range(0, 2):\n                    v1 = bv1 * ii\n                    for jj in range(-1, 2):\n                        v12 = bv2 * jj + v1\n                        for kk in range(-1, 2):\n                            new_r12 = r12 + v12 + bv3 * kk\n                            dist = min(dist, np.linalg.norm(new_r12))\n            out[i, j] = dist\n    return out\n\n\ndef _distance_mic_t(", "C05-R4", "_distance_mic")
+V("C05", "twin-selection-strict", GEOC, "                        if (dist2 <= min_dist2) {\n                            min_dist2 = dist2;\n                            min_r = rc;\n                        }\n                    }\n                }\n            }\n\n            // Store results.\n\n            if (store_displacement) {\n                float temp[4];\n                min_r.store(temp);\n                *displacement_out = temp[0];\n                displacement_out++;\n                *displacement_out = temp[1];\n                displacement_out++;\n                *displacement_out = temp[2];\n                displacement_out++;\n            }\n            if (store_distance) {\n                *distance_out = sqrtf(min_dist2);\n                distance_out++;\n            }\n        }\n        // Reset box offset",
+  "                        if (dist2 <= min_dist2) {\n                            min_r = rc;\n                            min_dist2 = dist2;\n                        }\n                    }\n                }\n            }\n\n            // Store results.\n\n            if (store_displacement) {\n                float temp[4];\n                min_r.store(temp);\n                *displacement_out = temp[0];\n                displacement_out++;\n                *displacement_out = temp[1];\n                displacement_out++;\n                *displacement_out = temp[2];\n                displacement_out++;\n            }\n            if (store_distance) {\n                *distance_out = sqrtf(min_dist2);\n                distance_out++;\n            }\n        }\n        // Reset box offset", "C05-R3")
+V("C05", "twin-dispatcher-local-rename", DPY, "            return _distance_mic(xyz, pairs, box.transpose(0, 2, 1), orthogonal)", "            res = _distance_mic(xyz, pairs, box.transpose(0, 2, 1), orthogonal)\n            return res", None)
+
+# ---------------------------------------------------------------- C07
+APY = "mdtraj/geometry/angle.py"
+DHPY = "mdtraj/geometry/dihedral.py"
+AKH = "mdtraj/geometry/src/kernels/anglekernels.h"
+DHKH = "mdtraj/geometry/src/kernels/dihedralkernels.h"
+V("C07", "angles-periodic-is-True", APY, "    if periodic and traj._have_unitcell:", "    if periodic is True and traj._have_unitcell:", "C07-R1", "compute_angles")
+V("C07", "angle-reference-ignores-periodic", APY, "        else:\n            _angle(traj, triplets, periodic, out)\n            return out", "        else:\n            _angle(traj, triplets, False, out)\n            return out", "C07-R1")
+V("C07", "dihedral-box-not-transposed", DHPY, "                box.transpose(0, 2, 1).copy(),", "                box.copy(),", "C07-R1", "compute_dihedrals")
+V("C07", "angle-kernel-vertex-first-atom", AKH, "int pairs[4] = {triplets[3*i+1], triplets[3*i], triplets[3*i+1], triplets[3*i+2]};", "int pairs[4] = {triplets[3*i], triplets[3*i+1], triplets[3*i+1], triplets[3*i+2]};", "C07-R2")
+V("C07", "dihedral-kernel-skips-middle", DHKH, "quartets[4*i+1], quartets[4*i+2], quartets[4*i+2], quartets[4*i+3]};", "quartets[4*i+1], quartets[4*i+2], quartets[4*i+1], quartets[4*i+3]};", "C07-R2")
+V("C07", "angle-reference-columns", APY, "    ix01 = angle_indices[:, [1, 0]]", "    ix01 = angle_indices[:, [0, 1]]", "C07-R2", "_angle")
+V("C07", "angle-upper-clamp-dropped", AKH, "            if (cosine > 1.0f) {\n               cosine = 1.0f;\n            }\n", "", "C07-R3")
+V("C07", "angle-clamp-after-acos", AKH, "            if (cosine < -1.0f) {\n                cosine = -1.0f;\n            }\n            if (cosine > 1.0f) {\n               cosine = 1.0f;\n            }\n            float angle = (float) acos(cosine);",
+  "            float angle = (float) acos(cosine);\n            if (cosine < -1.0f) {\n                cosine = -1.0f;\n            }\n            if (cosine > 1.0f) {\n               cosine = 1.0f;\n            }", "C07-R3")
+V("C07", "reference-clip-dropped", APY, "np.arccos(np.clip((u * v).sum(-1), -1.0, 1.0), out=out)", "np.arccos((u * v).sum(-1), out=out)", "C07-R3")
+V("C07", "dihedral-atan2-args-swapped", DHKH, "atan2f(p1, p2);", "atan2f(p2, p1);", "C07-R3")
+V("C07", "dihedral-missing-b2-norm", DHKH, "float p1 = dot3(v1, c1)*distances[3*j+1];", "float p1 = dot3(v1, c1);", "C07-R3")
+V("C07", "dihedral-reference-cross-order", DHPY, "    c2 = np.cross(b1, b2)", "    c2 = np.cross(b2, b1)", "C07-R3")
+V("C07", "phi-uses-next-C", DHPY, 'PHI_ATOMS = ["-C", "N", "CA", "C"]', 'PHI_ATOMS = ["C", "N", "CA", "+C"]', "C07-R4")
+V("C07", "omega-missing-offset", DHPY, 'OMEGA_ATOMS = ["CA", "C", "+N", "+CA"]', 'OMEGA_ATOMS = ["CA", "C", "+N", "CA"]', "C07-R4")
+V("C07", "chi2-ile-uses-CG2", DHPY, '    ["CA", "CB", "CG1", "CD1"],', '    ["CA", "CB", "CG2", "CD1"],', "C07-R4")
+V("C07", "chi3-row-shifted", DHPY, '    ["CB", "CG", "SD", "CE"],\n]', '    ["CA", "CG", "SD", "CE"],\n]', "C07-R4")
+V("C07", "parse-offset-plus-is-minus", DHPY, "        elif atom[0] == \"+\":\n            offsets.append(+1)", "        elif atom[0] == \"+\":\n            offsets.append(-1)", "C07-R4")
+V("C07", "indices_psi-uses-phi-table", DHPY, "    return _atom_sequence(top, PSI_ATOMS)[1]", "    return _atom_sequence(top, PHI_ATOMS)[1]", "C07-R4")
+V("C07", "compute_chi2-drops-periodic", DHPY, "    indices = indices_chi2(traj.topology)\n    if len(indices) == 0:\n        return indices, np.empty(shape=(len(traj), 0), dtype=np.float32)\n    all_chi = compute_dihedrals(traj, indices, periodic=periodic, opt=opt)", "    indices = indices_chi2(traj.topology)\n    if len(indices) == 0:\n        return indices, np.empty(shape=(len(traj), 0), dtype=np.float32)\n    all_chi = compute_dihedrals(traj, indices, opt=opt)", "C07-R4")
+V("C07", "atom-lookup-ignores-offset", DHPY, "[atom_dict[cid][rid + offset][atom] for atom, offset in atoms_and_offsets],", "[atom_dict[cid][rid][atom] for atom, offset in atoms_and_offsets],", "C07-R4")
+V("C07", "twin-chi-row-order", DHPY, '    ["N", "CA", "CB", "CG"],\n    ["N", "CA", "CB", "CG1"],', '    ["N", "CA", "CB", "CG1"],\n    ["N", "CA", "CB", "CG"],', None)
+V("C07", "twin-clamp-order", AKH, "            if (cosine < -1.0f) {\n                cosine = -1.0f;\n            }\n            if (cosine > 1.0f) {\n               cosine = 1.0f;\n            }", "            if (cosine > 1.0f) {\n               cosine = 1.0f;\n            }\n            if (cosine < -1.0f) {\n                cosine = -1.0f;\n            }", None)
